@@ -1,4 +1,5 @@
 import Proofs.WireExt
+import Proofs.WireExtConv
 import Proofs.WireTotal
 import Proofs.WireValid
 import Props.C06
@@ -77,6 +78,27 @@ theorem C07.zero_ext (t : Ty) (bits : List Bool) (k : Nat) (hdr : Bool) (v : Val
     cases he
     obtain ⟨q', h1, _⟩ := dec_ext _ ⟨0, bits⟩ ⟨0, bits ++ zeros k⟩ _ _ ⟨rfl, k, rfl⟩ hd
     exact ⟨_, h1, rfl⟩
+
+/-- Converse: if `b` followed by zeros decodes, then `b` decodes to the same object — unless a delimiter header
+    exceeds the data available in `b` (the exception the property names). -/
+theorem C07.zero_ext_conv (t : Ty) (bits : List Bool) (k : Nat) (hdr : Bool) (v : Val)
+    (h : deserialize t (bits ++ zeros k) hdr = .ok v) :
+    deserialize t bits hdr = .ok v ∨ deserialize t bits hdr = .error .delimiterHeader := by
+  unfold deserialize at h ⊢
+  split at h
+  · cases h
+  · rename_i hc
+    simp only [hc, Bool.false_eq_true, if_false]
+    simp only [bind_ok] at h
+    obtain ⟨⟨w, q⟩, hd, he⟩ := h
+    cases he
+    rcases dec_extConv _ ⟨0, bits⟩ ⟨0, bits ++ zeros k⟩ _ _ ⟨rfl, k, rfl⟩ hd with ⟨q0, h1, _⟩ | herr
+    · left; simp only [bind_ok]; exact ⟨_, h1, rfl⟩
+    · right; simp only [bind_err]; exact Or.inl herr
+
+example : deserialize (.struct [.uint 8 .sat] (.delimited 8)) (natBits 32 1) true = .error .delimiterHeader ∧
+    deserialize (.struct [.uint 8 .sat] (.delimited 8)) (natBits 32 1 ++ zeros 8) true = .ok (.recd [.int 0]) :=
+  ⟨rfl, rfl⟩
 
 /-- … at any position inside any container: stability of every decoding step under zero extension of the
     readable window (this is what makes the bounded sub-reader of nested delimited objects consistent). -/
